@@ -181,7 +181,7 @@ def equinox(date, eop_correction=True, terms=106, kinematic=True):
 
     equin = delta_psi * 3600.0 * np.cos(np.deg2rad(epsilon_bar))
 
-    if date.d >= 50506 and kinematic:
+    if date.change_scale("UTC").d >= 50506 and kinematic:
         # Starting 1992-02-27, we apply the effect of the moon
         ttt = date.change_scale("TT").julian_century
         om_m = (
